@@ -56,6 +56,10 @@ THEOREMS = [
     'C11.transform_homogeneous', 'C11.normalized_setter_idem_triclinic', 'C11.normalized_setter_idem_cubic',
     'C11.normalized_setter_idem_tetragonal', 'C11.normalized_setter_idem_orthorhombic',
     'C11.normalized_setter_idem_monoclinic', 'C11.is_normal_of_fixed', 'C11.is_normal_of_normalized_setter',
+    # round 5: axes_check regenerated from the source; axes are directions
+    'C11.gen_axesCheckU_eq_model', 'C11.gen_axesCheck_eq_model', 'C11.axesCheckT_congr', 'C11.axesCheck_scale_invariant',
+    'C11.transform_axes_scale_invariant', 'C11.unitRows_orthogonal', 'C11.axesCheck_normalises',
+    'C11.transform_rotates_by_unit_axes', 'C11.axesCheck_refuses_left_handed',
 ]
 PARTIAL = {
     'transform_with_cleanups': 'transform_id/comp/inv, energy and moduli invariance and system_invariant_* are proved for '
